@@ -84,6 +84,10 @@ type Run struct {
 	current    any
 	lastMsg    string
 	replayMode bool
+	// first explicit failure of this run: used when the final (shrunk) re-run does not fail again,
+	// i.e. the violation depends on something outside the case (map iteration order, schedule).
+	firstCase any
+	firstMsg  string
 }
 
 // Begin starts the bookkeeping of one test function of property prop.
@@ -180,6 +184,9 @@ func (r *Run) Failf(f Failer, format string, args ...any) {
 	msg := fmt.Sprintf(format, args...)
 	r.mu.Lock()
 	r.lastMsg = msg
+	if r.firstMsg == "" {
+		r.firstMsg, r.firstCase = msg, r.current
+	}
 	r.mu.Unlock()
 	f.Fatalf("%s", msg)
 }
@@ -190,6 +197,9 @@ func (r *Run) Finish(t *testing.T) {
 	if t.Failed() && !r.replayMode {
 		r.mu.Lock()
 		cur, msg := r.current, r.lastMsg
+		if msg == "" && r.firstMsg != "" {
+			cur, msg = r.firstCase, r.firstMsg+"\n(not reproduced by the final re-run: the violation depends on map iteration order or scheduling; the case saved is the first failing one, unshrunk)"
+		}
 		r.mu.Unlock()
 		explicit := msg != ""
 		if msg == "" {
